@@ -217,7 +217,7 @@ def restart_scenario(rng, size='quick', **over):
         if rng.random() < 0.15 or i == n_ops - 1:
             if rng.random() < 0.5:
                 lines += ['settle']
-            mode = 'kinds' if (size == 'quick' or rng.random() < 0.7) else f'lens:{rng.choice([1, 7, 13])}'
+            mode = 'kinds' if (size == 'quick' or rng.random() < 0.8) else f'lens:{rng.choice([1, 7, 13, 29])}'
             lines += [f'dmgsweep {mode}' + (' lazy' if rng.random() < 0.3 else ''), 'states']
             lines += queries('all', keys, absent)
     return lines
@@ -462,11 +462,11 @@ def filter_scenario(rng, size='quick', **over):
         for kk in mid:
             lines += [f'w {kk} {rng.choice(TS_POOL)} - 3 {seed}', 'states']
             seed += 1
-        lines += [rng.choice(['close_active', 'force always']), 'states']
+        lines += [rng.choice(['close_active', 'force always']), 'quiesce', 'states']
         for kk in (keys[0], keys[-1]):
             lines += [f'w {kk} {rng.choice(TS_POOL)} - 3 {seed}', 'states']
             seed += 1
-        lines += [rng.choice(['close_active', 'force always']), 'states']
+        lines += [rng.choice(['close_active', 'force always']), 'quiesce', 'states']
         for kk in keys + absent[:1]:
             lines += [f'cf {kk}', f'cfs {kk}', f'gfc {kk}', f'c {kk}']
     n = rng.randint(8, 20) if size == 'quick' else rng.randint(15, 60)
@@ -479,6 +479,7 @@ def filter_scenario(rng, size='quick', **over):
             lines.append(f'd {rng.choice(keys)} {rng.choice(TS_POOL)} - {rng.choice([0, 1])}')
         elif x < 0.75:
             lines.append(rng.choice(['close_active', 'restore_active', 'create_active', 'force always', 'force always']))
+            lines.append('quiesce')     # the index dump it may start has finished: filter answers are deterministic
         elif x < 0.85:
             lines.append('settle')
         elif x < 0.95:
@@ -537,18 +538,37 @@ def fault_scenario(rng, size='quick', **over):
         if rng.random() < 0.3:
             lines += [rng.choice(['close_active', 'force always', 'settle']), 'states']
     lines += ['nomodel']
-    rounds = rng.randint(1, 3) if size == 'quick' else rng.randint(2, 6)
-    for _ in range(rounds):
-        kind = rng.choice(['write', 'write', 'sync', 'create', 'write'])
-        pat = rng.choice(['.blob', '.blob', '.index'])
-        nth = rng.choice([0, 0, 1, 2])
-        act = rng.choice(['fail:28', 'fail:5', 'short:0', 'short:7', 'short:60'])
-        if kind != 'write':
-            act = rng.choice(['fail:28', 'fail:5'])
+    # the n-th operation of each kind: every scenario takes one operation shape and walks through (kind, n, file class)
+    combos = [(kind, nth, pat) for kind in ('write', 'sync', 'create') for nth in (0, 1, 2) for pat in ('.blob', '.index')]
+    rng.shuffle(combos)
+    rounds = rng.randint(3, 6) if size == 'quick' else len(combos)
+    shape = rng.choice(['w', 'wbig', 'd', 'close_active', 'force always', 'create_active', 'settle', 'restore_active',
+                        'fsync', 'mixed', 'mixed'])
+    for kind, nth, pat in combos[:rounds]:
+        act = rng.choice(['fail:28', 'fail:5', 'short:0', 'short:7', 'short:60']) if kind == 'write' else rng.choice(['fail:28', 'fail:5'])
+        # bring the storage into a state where the operation applies
+        if shape in ('close_active', 'force always', 'settle', 'fsync', 'd') or (shape == 'mixed' and rng.random() < 0.5):
+            lines += [data_op(), 'states']
+        if shape == 'restore_active':
+            lines += [data_op(), 'states', 'close_active', 'states']
+        if shape == 'create_active':
+            lines += ['close_active', 'states']
+        if shape == 'settle':
+            lines += [rng.choice(['close_active', 'force always']), 'states']
         lines.append(f'fault {kind} {nth} {pat} {act}')
-        for _ in range(rng.randint(1, 3)):
-            lines += [rng.choice([data_op(), data_op(), 'close_active', 'force always', 'create_active', 'settle',
-                                  'restore_active', 'fsync']), 'states']
+        for _ in range(1 if shape != 'mixed' else rng.randint(1, 3)):
+            if shape == 'w':
+                op = data_op()
+            elif shape == 'wbig':
+                seed += 1
+                op = f'w {rng.choice(keys)} {rng.choice(TS_POOL)} - {rng.choice([5000, 90000])} {seed % 250 + 1}'
+            elif shape == 'd':
+                op = f'd {rng.choice(keys)} {rng.choice(TS_POOL)} - {rng.choice([0, 1])}'
+            elif shape == 'mixed':
+                op = rng.choice([data_op(), data_op(), 'close_active', 'force always', 'create_active', 'settle', 'restore_active', 'fsync'])
+            else:
+                op = shape
+            lines += [op, 'states']
             for k in keys:
                 lines += [f'r {k}']
         lines += ['clearfaults', 'states', 'alive']
@@ -654,6 +674,14 @@ def cancel_scenario(rng, size='quick', **over):
     for _ in range(rounds):
         k = rng.choice([1, 1, 2, 2, 3, 4, 5, 7, 10])
         op = rng.choice([data_op(), data_op(), data_op(), 'close_active', 'create_active', 'restore_active'])
+        if rng.random() < 0.4:
+            # the operation has to load the index of a closed blob from its file (an awaited read) first
+            ts += 1
+            kk = rng.choice(keys)
+            lines += [f'w {kk} {ts} - {rng.choice([10, 300])} {seed % 250 + 1}', 'states', 'close_active', 'states', 'settle', 'states']
+            ts += 1
+            op = rng.choice([f'd {kk} {ts} - 1', f'd {kk} {ts} - 1', 'restore_active'])
+            k = rng.choice([1, 2, 2, 3, 3, 4])
         lines += [f'cancel {k} {op}', 'states'] + reads()
         lines += [data_op(), 'states', 'alive']
         if rng.random() < 0.3:
